@@ -235,6 +235,26 @@ theorem accHunk_ok {P : Json → Prop} {K : List String} {N : Nat} {p : Path} {s
       · exact h4
 
 
+/-- a hunk that came through `subAfter`: it agrees with a hunk of the sub-diff on everything but the
+    after-context, which is unchanged or the next element of the source (or the end marker) -/
+theorem HunkOK.of_subAfter {P : Json → Prop} {K : List String} {N : Nat} {h h0 : Hunk} {nx : Json}
+    (g : HunkOK P K N h0) (e1 : h.path = h0.path) (e2 : h.remove = h0.remove) (e3 : h.add = h0.add)
+    (e4 : h.before = h0.before) (e5 : h.merge = h0.merge)
+    (ha : h.after = h0.after ∨ h.after = [nx]) (hnx : nx.isVoid = true ∨ P nx) :
+    HunkOK P K N h := by
+  refine ⟨by rw [e5]; exact g.strict, by rw [e1]; exact g.path, by rw [e4]; exact g.before1,
+    by rw [e2]; exact g.remNV, by rw [e1, e3]; exact g.addNV, by rw [e2, e3]; exact g.some,
+    by rw [e1, e2, e3]; exact g.multi, ?_⟩
+  intro v hv
+  rw [e4, e2, e3] at hv
+  rcases ha with ha | ha
+  · rw [ha] at hv; exact g.pay v hv
+  · rw [ha] at hv
+    simp only [List.mem_append, List.mem_singleton] at hv
+    rcases hv with hv | rfl
+    · exact g.pay v (by simp only [List.mem_append]; exact .inl hv)
+    · exact hnx
+
 theorem mem_nodeList {v n : Json} : v ∈ n.nodeList ↔ v = n ∧ n.isVoid = false := by
   unfold Json.nodeList
   cases h : n.isVoid <;> simp
@@ -446,8 +466,12 @@ theorem diff_ok (o : Opts) (ho : dispatchTag o = .list) (P : Json → Prop)
         | nil => exact .inl rfl
         | cons z r => exact .inr hA.cons.2.cons.1.self.2.2
       · exact .inr hA.cons.1.self.2.2
-    · exact ihN hA.cons.1 hB.cons.1 (p ++ [.idx k]) (PathIn.snoc_idx (by omega) hp)
-        (fun e => by rw [nvy] at e; cases e) h hm
+    · obtain ⟨h0, hm0, e1, e2, e3, e4, e5, ha⟩ := mem_subAfter' hm
+      refine (ihN hA.cons.1 hB.cons.1 (p ++ [.idx k]) (PathIn.snoc_idx (by omega) hp)
+        (fun e => by rw [nvy] at e; cases e) h0 hm0).of_subAfter e1 e2 e3 e4 e5 ha ?_
+      cases a' with
+      | nil => exact .inl rfl
+      | cons z r => exact .inr hA.cons.2.cons.1.self.2.2
     · exact ihR hA.cons.2 hB.cons.2 (fun z hz => nA z (List.mem_cons_of_mem _ hz))
         (fun z hz => nB z (List.mem_cons_of_mem _ hz)) p hp (by omega) (Nat.le_refl _)
         (.inr hB.cons.1.self.2.2.1) (by simp) (by simp) h hm
@@ -1164,7 +1188,7 @@ theorem ex_diff : diffM [] exA exB =
     fun xs ys p => diffNode_arr_arr (o := []) rfl xs ys rfl rfl (.inl rfl) p
   simp [diffKvs_cons, diffKvs_nil, alookup, diffRest_cons, atC, h1, h2, h3, h4, h5, h6, h7,
     sameContainerType, Json.dispatch, dispatchTag, accHunk, diffRest_nilA, raw_raw, hashList,
-    lcsValues, lcsRows, lcsRow, lcsRowGo, lcsBack, Json.nodeList, Json.isVoid]
+    lcsValues, lcsRows, lcsRow, lcsRowGo, lcsBack, Json.nodeList, Json.isVoid, subAfter]
 
 /-- the decidable hypotheses -/
 theorem dom : exA.listDoc = true ∧ exA.wf = true ∧ exA.finiteNums = true ∧ memOK exA = true ∧
